@@ -61,6 +61,7 @@ def batches(tier):
             {"name": "foreign", "runs": 780, "weight": 2, "seed_offset": 400000},
             {"name": "fockcount", "runs": 240, "weight": 2, "seed_offset": 500000},
             {"name": "hetero", "runs": 700, "weight": 1, "seed_offset": 600000},
+            {"name": "loaded", "runs": 500, "weight": 1, "seed_offset": 700000},
         ]
     return [
         {"name": "gaussian", "runs": 30000, "weight": 4},
@@ -70,6 +71,7 @@ def batches(tier):
         {"name": "foreign", "runs": 12000, "weight": 2, "seed_offset": 400000},
         {"name": "fockcount", "runs": 4000, "weight": 2, "seed_offset": 500000},
         {"name": "hetero", "runs": 8000, "weight": 1, "seed_offset": 600000},
+        {"name": "loaded", "runs": 6000, "weight": 1, "seed_offset": 700000},
     ]
 
 
@@ -204,12 +206,60 @@ def gen_hetero(r, seed):
             "cutoff": 5, "foreign": [], "misuse": None, "hetero": True, "m0": m0, "select": (["c", rnd(r, -0.8, 0.8), rnd(r, -0.8, 0.8)] if r.random() < 0.3 else None)}
 
 
+def gen_loaded(r, seed):
+    """a program that reaches the engine as Blackbird text (sf.io): 11-14 modes, so that measured parameters of modes with two-digit indices
+    (q10, q11, ...) occur next to those of their one-digit look-alikes (q1)"""
+    n = r.randint(11, 14)
+    ops = []
+    hi = r.sample(range(10, n), r.randint(1, min(2, n - 10)))
+    lo = [int(str(m)[0]) for m in hi if r.random() < 0.7] + ([r.randrange(2, 10)] if r.random() < 0.4 else [])
+    meas = list(dict.fromkeys(hi + lo))
+    r.shuffle(meas)
+    targets = [m for m in range(n) if m not in meas]
+    ops.append({"op": "Rgate", "p": [rnd(r, 0.1, 1.0)], "m": [n - 1]})  # the text declares no mode count: the highest index used is the last mode
+    for m in meas:
+        ops.append({"op": "Coherent", "p": [rnd(r, 0.2, 0.9), rnd(r, 0, 6)], "m": [m]})
+    done = []
+    for m in meas:
+        ops.append({"op": "MeasureHomodyne", "p": [rnd(r, 0, 3)], "m": [m]})
+        done.append(m)
+        for _ in range(r.randint(0, 2)):
+            src = r.choice(done)
+            g = r.choice(["Xgate", "Zgate", "Rgate"])
+            ops.append({"op": g, "p": [{"mul": [{"meas": src}, rnd(r, 0.1, 0.9)]}], "m": [r.choice(targets)]})
+    src = r.choice(hi)
+    ops.append({"op": "Xgate", "p": [{"mul": [{"meas": src}, rnd(r, 0.1, 0.9)]}], "m": [r.choice(targets)]})
+    return {"backend": "gaussian", "n": n, "segs": [{"n": n, "name": "seg0", "ops": ops}], "bind": {}, "tape": seed, "how": {"mode": "run", "optimize": r.random() < 0.4},
+            "cutoff": 5, "foreign": [], "misuse": None, "loaded": True}
+
+
+def blackbird_text(sp):
+    def num(x):
+        return repr(float(x))
+
+    def ex(e):
+        if isinstance(e, (int, float)):
+            return num(e)
+        if "meas" in e:
+            return "q%d" % e["meas"]
+        if "mul" in e:
+            return "%s*%s" % (ex(e["mul"][0]), ex(e["mul"][1]))
+        raise ValueError(e)
+
+    lines = ["name loaded", "version 1.0", ""]
+    for o in sp["ops"]:
+        lines.append("%s(%s) | %s" % (o["op"], ", ".join(ex(e) for e in o["p"]), ", ".join(str(m) for m in o["m"])))
+    return "\n".join(lines) + "\n"
+
+
 def generate(seed, tier, batch):
     r = random.Random("c10:%d" % seed)
     if batch == "fockcount":
         return gen_fockcount(r, seed)
     if batch == "hetero":
         return gen_hetero(r, seed)
+    if batch == "loaded":
+        return gen_loaded(r, seed)
     big = tier == "thorough"
     backend = batch if batch in ("gaussian", "bosonic", "fock") else r.choice(["gaussian", "gaussian", "bosonic", "fock"] if batch == "misuse" else ["gaussian", "gaussian", "bosonic"])
     n = r.randint(1, 3 if backend == "fock" else 4)
@@ -445,6 +495,8 @@ def execute(script, w):
         return exec_fockcount(script, w, feats)
     if script.get("hetero"):
         return exec_hetero(script, w, feats)
+    if script.get("loaded"):
+        return exec_loaded(script, w, feats)
     with simenv:
         simenv.rng.handler = tape
         if script.get("misuse"):
@@ -644,6 +696,74 @@ def exec_hetero(script, w, feats):
             return
         w.nontrivial.add(hashlib.sha256(json.dumps(script, sort_keys=True).encode()).hexdigest()[:16])
         w.probes["complex_outcome_as_parameter"] += 1
+
+
+def exec_loaded(script, w, feats):
+    """the symbolic program is loaded from Blackbird text; the twin is written through the Python API with the recorded outcomes substituted"""
+    from strawberryfields import io as sfio
+
+    outcomes = SeededOutcomes(script["tape"], w)
+    cur = {"mode": None}
+    rv = random.Random("c10l:%d" % script["tape"])
+    val_of = {m_: round(rv.uniform(-1.5, 1.5), 6) for m_ in range(script["n"])}  # the outcome of a mode does not depend on when it is measured
+
+    def on_call(phase, be, name, a, k, out):
+        if name == "measure_homodyne":
+            if phase == "pre":
+                mode = k.get("mode", a[1] if len(a) > 1 else None)
+                cur["mode"] = int(mode[0]) if isinstance(mode, (list, tuple)) else int(mode)
+            else:
+                cur["mode"] = None
+
+    def handler(name, args, kwargs, native):
+        if name != "multivariate_normal" or cur["mode"] is None:
+            return outcomes(name, args, kwargs, native)
+        size = kwargs.get("size", args[2] if len(args) > 2 else None)
+        y = np.array([val_of[cur["mode"]], 0.0])
+        return np.tile(y, (int(size), 1)) if size else y
+
+    simenv = SimEnv(w, outcomes, FaultPlan(), on_call=on_call)
+    sp = script["segs"][0]
+    feats = feats + ["loaded-from-blackbird"]
+    with simenv:
+        simenv.rng.handler = handler
+        try:
+            ps = sfio.to_program(__import__("blackbird").loads(blackbird_text(sp)))
+            w.step("run", symbolic=True)
+            outcomes.rewind()
+            rs = simenv.engine("gaussian").run(ps, **({"compile_options": {"optimize": True}} if script["how"].get("optimize") else {}))
+        except Violation:
+            raise
+        except Exception as ex:  # noqa
+            w.violation("substitution", "symbolic-run-raises", {"exc": type(ex).__name__, "msg": str(ex)[:300]}, feats)
+            return
+        vals = {int(m_): float(np.asarray(v_).ravel()[-1]) for m_, v_ in rs.samples_dict.items()}
+        mv, latest = [], {}
+        for o in sp["ops"]:
+            mv.append(dict(latest))
+            if o["op"] == "MeasureHomodyne":
+                latest[o["m"][0]] = vals[o["m"][0]]
+        try:
+            pt = build_program(sp, numeric={"bind": {}, "mvals_at": mv})
+            w.step("run", symbolic=False)
+            outcomes.rewind()
+            rt = simenv.engine("gaussian").run(pt)
+        except Violation:
+            raise
+        except Exception as ex:  # noqa
+            w.probes["twin_not_runnable"] += 1
+            w.log("twin_error", exc=type(ex).__name__, msg=str(ex)[:200])
+            return
+        vt = {int(m_): float(np.asarray(v_).ravel()[-1]) for m_, v_ in rt.samples_dict.items()}
+        if any(abs(vt[m_] - vals[m_]) > 1e-9 for m_ in vals):
+            w.violation("substitution", "twin-outcome-differs", {"symbolic": vals, "twin": vt}, feats)
+            return
+        d = obs_diff(state_obs(rt.state), state_obs(rs.state), 1e-7)
+        if d:
+            w.violation("substitution", "final-state symbolic vs numeric twin", {"diff": d, "outcomes": {str(k_): v_ for k_, v_ in vals.items()}}, feats)
+            return
+        w.nontrivial.add(hashlib.sha256(json.dumps(script, sort_keys=True).encode()).hexdigest()[:16])
+        w.probes["measured_parameter_of_two_digit_mode_in_loaded_program"] += 1
 
 
 def foreign_activity(script, f, w, simenv):
